@@ -46,7 +46,35 @@ def main():
             r = vf.require_ok(vf.tlc("SymlinkResolve", c, timeout=2400), c)
             ck.add_tlc(c, r, open(os.path.join(vf.SPEC, "cfg", c)).read().split("SPECIFICATION")[0].strip())
             cases += r.cases
-    obs = vf.run_harness("vimage", "symlink", cases, timeout=3000)
+    req_cases = [c for c in cases if "req" in c]
+    cases = [c for c in cases if "req" not in c]
+    if not a.replay:
+        # SymlinkRequire.tla: the same graphs loaded with a file requirer (the pruning keeps the targets of required symlinks)
+        s = vf.tlc("SymlinkRequire", "SymlinkRequire-asfound.cfg", workers=4, collect=False, timeout=600)
+        if s.violated != "SanityOrderDependent":
+            raise vf.NotAVerdict("SymlinkRequire: the as-found pruning is not order dependent in the model: vacuous")
+        for c in ["SymlinkRequire-n3.cfg"] + (["SymlinkRequire-n4.cfg"] if ck.thorough() else []):
+            r = vf.require_ok(vf.tlc("SymlinkRequire", c, timeout=2400), c)
+            ck.add_tlc(c, r, open(os.path.join(vf.SPEC, "cfg", c)).read().split("SPECIFICATION")[0].strip())
+            req_cases += r.cases
+    # the walk that prunes follows Go's map order: every restricted load is repeated
+    for rep in range(3 if req_cases else 0):
+        by_depths = {}
+        for c in req_cases:
+            by_depths.setdefault(",".join(sorted(c["expect"].keys())), []).append(c)
+        for ds, group in by_depths.items():
+            robs = vf.run_harness("vimage", "symlink", group, args=["-a", "req=1", "-a", "depths=" + ds], timeout=3000)
+            if len(robs) != len(group):
+                raise vf.NotAVerdict("symlink harness (requirer) returned %d of %d" % (len(robs), len(group)))
+            for o in robs:
+                case = group[o["i"]]
+                mm = judge(case, o["obs"])
+                if mm and len(ck.violations) < 40:
+                    ck.violation("C17 (image loaded with a requirer for entries %s): %s" % (case["req"], "; ".join(mm[:2])), {"case": case, "observed": o["obs"], "mismatch": mm[:10]})
+            ck.count(sum(len(c["kinds"]) * len(c["expect"]) * 3 for c in group))
+            ck.cov["traces_validated_against_impl"] += len(group)
+            ck.cov["requirer_graphs"] = ck.cov.get("requirer_graphs", 0) + len(group)
+    obs = vf.run_harness("vimage", "symlink", cases, timeout=3000) if cases else []
     if len(obs) != len(cases):
         raise vf.NotAVerdict("symlink harness returned %d of %d" % (len(obs), len(cases)))
     nt = 0
@@ -61,12 +89,13 @@ def main():
             ck.violations.append(("(more)", {"n": len(ck.violations)}))
     ck.count(sum(len(c["kinds"]) * 7 * 3 for c in cases))
     ck.cov["distinct_nontrivial"] = nt
-    ck.cov["traces_validated_against_impl"] = len(cases)
+    ck.cov["traces_validated_against_impl"] += len(cases)
     ck.cov["exhaustive"] = True
     ck.cov["rule"] = ("every graph on N named entries (N = 3,4; thorough also 5), each a file, directory, missing, deleted by a later layer's whiteout, a symlink leaving the root, or a "
                       "relative / absolute / non-canonically spelled absolute symlink to any entry, x every MaxSymlinkDepth 0..6; graphs are packed 1000 per real image and every entry is probed "
-                      "with Stat, Open(+Stat) and ReadDir; non-trivial = the graph contains a symlink")
-    ck.sample(cases[len(cases) // 3])
+                      "with Stat, Open(+Stat) and ReadDir; plus (SymlinkRequire.tla) every graph on 3 (thorough: 4) entries x every set of required entries loaded with a file requirer, 3 times each; "
+                      "non-trivial = the graph contains a symlink")
+    ck.sample((cases or req_cases)[len(cases or req_cases) // 3])
     ck.assumptions += ["when the chain reaches a missing entry exactly when the hop budget is exhausted both 'not found' and the depth error are accepted",
                        "Open of a deleted path may return a handle whose Stat says not-exist"]
     return ck.finish()
